@@ -25,7 +25,14 @@ theorem cmp_self_eq [OrientedCmp cmp] (a : V) : cmp a a = .eq := by
   have h : cmp a a = (cmp a a).swap := OrientedCmp.eq_swap
   cases hc : cmp a a <;> simp_all [Ordering.swap]
 
-theorem swo_of_lawful [TransCmp cmp] (h : Lawful o cmp) : StrictWeakOrder o.lt o.gt where
+/-- `<` and `>` are the ones induced by the three-way comparison -/
+structure LawfulLtGt (o : VOps V) (cmp : V → V → Ordering) : Prop where
+  lt : ∀ a b, o.lt a b = (cmp a b == .lt)
+  gt : ∀ a b, o.gt a b = (cmp a b == .gt)
+
+theorem Lawful.ltgt (h : Lawful o cmp) : LawfulLtGt o cmp := ⟨h.lt, h.gt⟩
+
+theorem swo_of_ltgt [TransCmp cmp] (h : LawfulLtGt o cmp) : StrictWeakOrder o.lt o.gt where
   irrefl a := by simp [h.lt, cmp_self_eq]
   asymm a b hab := by
     simp only [h.lt, beq_iff_eq] at hab ⊢
@@ -86,7 +93,27 @@ def sortBy (lt : V → V → Bool) (l : List V) : List V := l.mergeSort (fun a b
 
 /-- Sorting any list of versions gives the same sequence of equivalence classes whatever the
 input order. -/
-theorem sort_classes_invariant [TransCmp cmp] (h : Lawful o cmp) (l₁ l₂ : List V)
+theorem swo_of_lawful [TransCmp cmp] (h : Lawful o cmp) : StrictWeakOrder o.lt o.gt :=
+  swo_of_ltgt h.ltgt
+
+/-- the operators of a scheme restricted to a sub-domain -/
+def subOps {P : V → Prop} (o : VOps V) : VOps { v : V // P v } where
+  lt a b := o.lt a.1 b.1
+  le a b := o.le a.1 b.1
+  gt a b := o.gt a.1 b.1
+  ge a b := o.ge a.1 b.1
+  eq a b := o.eq a.1 b.1
+  ne a b := o.ne a.1 b.1
+
+theorem LawfulLtGt.sub {P : V → Prop} (h : LawfulLtGt o cmp) :
+    LawfulLtGt (subOps (P := P) o) (fun a b => cmp a.1 b.1) := ⟨fun a b => h.lt a.1 b.1, fun a b => h.gt a.1 b.1⟩
+
+theorem Lawful.sub {P : V → Prop} (h : Lawful o cmp) :
+    Lawful (subOps (P := P) o) (fun a b => cmp a.1 b.1) :=
+  ⟨fun a b => h.lt a.1 b.1, fun a b => h.gt a.1 b.1, fun a b => h.eq a.1 b.1,
+   fun a b => h.le a.1 b.1, fun a b => h.ge a.1 b.1, fun a b => h.ne a.1 b.1⟩
+
+theorem sort_classes_invariant [TransCmp cmp] (h : LawfulLtGt o cmp) (l₁ l₂ : List V)
     (hp : l₁.Perm l₂) :
     (sortBy o.lt l₁).map (cls cmp) = (sortBy o.lt l₂).map (cls cmp) := by
   have hle : ∀ a b : V, (!o.lt b a) = (cmp a b).isLE := by
